@@ -21,12 +21,15 @@ import (
 
 func transferCmd(out *cq.Out, seed uint64, tier string) {
 	rng := cq.NewRng(seed)
-	scenarios := 3
+	scenarios := 4
 	if tier == "thorough" {
 		scenarios = 8
 	}
 	for sc := 0; sc < scenarios; sc++ {
-		newNode := sc%3 == 1 // a brand-new node instead of a returning one
+		// every fourth scenario: a brand-new node joins a leader whose raft snapshot was taken when the log held exactly
+		// ONE event (last applied version 0 means both "nothing" and "version 0")
+		oneEvent := sc%4 == 3
+		newNode := sc%3 == 1 || oneEvent // a brand-new node instead of a returning one
 		dir, _ := os.MkdirTemp(out.Dir, "tr")
 		var c *cluster
 		var err error
@@ -75,6 +78,9 @@ func transferCmd(out *cq.Out, seed uint64, tier string) {
 		if sc%3 == 0 {
 			pre = 1 + rng.Intn(4)
 		}
+		if oneEvent {
+			pre = 0
+		}
 		if pre > 0 && !add(pre) {
 			c.stopAll()
 			continue
@@ -88,10 +94,14 @@ func transferCmd(out *cq.Out, seed uint64, tier string) {
 			os.RemoveAll(fmt.Sprintf("%s/node%d", dir, f))
 			hist = append(hist, "its data directory is wiped: it will come back as a brand-new node")
 		}
-		if sc%4 != 3 {
+		if sc%4 != 3 || oneEvent {
 			firstSize = 1 // the first entry the follower misses is a single insertion
 		}
-		if !add(2 + rng.Intn(6)) {
+		missed := 2 + rng.Intn(6)
+		if oneEvent {
+			missed = 1
+		}
+		if !add(missed) {
 			c.stopAll()
 			continue
 		}
